@@ -134,7 +134,8 @@ def decide(pid, tier, summaries, t0, seed):
         cov["distinct_outcomes"] += s["sets"]["outcomes"]
         cov["samples"] += s["samples"][:3]
         # a saturated counting table only makes the distinct-* figures lower bounds; every case was still run
-        exhaustive = exhaustive and s["complete"]
+        capped = c.get("budget_hit", 0) + c.get("incomplete_cases", 0)  # a case that hit its own execution cap
+        exhaustive = exhaustive and s["complete"] and not capped
         name = s["cmd"][0].split("/")[-1].rsplit("-", 1)[0]
         cov["parts"][name] = {
             "cases_in_space": s["ncases"], "cases_done": s["cases_done"], "completed_below": s["completed_below"],
